@@ -195,7 +195,7 @@ def inv(checksum, run, accepted_is_none, accepted):
 
 class Recompile(Contract):
     target = "pyab_experiment.experiment_evaluator:ExperimentEvaluator.recompile"
-    props = ("C11", "C01", "C06", "C17", "C14", "C09", "C13", "C07")      # union over its clauses (used for in-subset / existence)
+    props = ("C11", "C01", "C06", "C17", "C14", "C09", "C13", "C07", "C02", "C05", "C08", "C12")      # union over its clauses (used for in-subset / existence)
     allow_any_exception = True
 
     def shapes(self):
@@ -339,7 +339,8 @@ class Recompile(Contract):
         if "pipeline-as-documented" in name:
             return ("C14", "C09", "C13", "C07")
         if name.startswith("ensures.switches-completely") or name.startswith("ensures.no-op") or name.startswith("ensures.invariant"):
-            return ("C11", "C01")
+            # the evaluator runs the text it was last given: every property about "the experiment's behaviour" relies on it
+            return ("C11", "C01", "C02", "C05", "C08", "C09", "C12")
         if name.startswith("raises.") or name.startswith("ensures.returns") or kind in ("safety", "pre-callee"):
             return ("C11",)
         if "deterministic" in name or "no-global" in name:
